@@ -229,10 +229,19 @@ class Run:
         if i is not None and self.fin_cancel[i] and not self.cancel_issued[i]:
             self.cancel_issued[i] = True
             post(self._do_cancel, i)
-        h = post(callback, *args, context=context)
-        if i is not None:
-            post(self._mark_reported, i, threading.get_ident())
-        return h
+        if i is None:
+            return post(callback, *args, context=context)
+        tid = threading.get_ident()
+
+        def report_and_mark() -> None:
+            # one loop callback: the real `_report_result`, then the harness's note that it ran (two
+            # separate posts would let the loop dispatch the next job to this worker in between)
+            try:
+                callback(*args)
+            finally:
+                self._mark_reported(i, tid)
+
+        return post(report_and_mark, context=context)
 
     def _do_cancel(self, i: int) -> None:
         self.ev("cancel", i, "fin")
